@@ -3,7 +3,7 @@
   Codec model: ILV.Model.Batch (WAL JSON line, batch-file columns typed by the first update);
   engine model: ILV.Model.Store. Lemmas: ILV.Lemmas.BatchCodec, ILV.Lemmas.StoreRun.
 -/
-import ILV.Lemmas.BatchCodec
+import ILV.Lemmas.RealCodec
 import ILV.Lemmas.StoreRun
 namespace ILV.Props.C12
 open ILV ILV.Batch ILV.Store ILV.Props.C31
@@ -19,21 +19,7 @@ theorem C12_homogeneous (ks : List DType) (hne : ks ≠ []) (hs : ks.all safeKin
 
 /-- a WAL line is read back unchanged iff it holds no non-finite float (the serde_json round trip of
     finite values being the trusted parameter). -/
-theorem C12_wal_line (u : Update) (h : u.data.all jsonSafe = true) : walCodec u = some u := by
-  simp [walCodec, h]
-
-/-- admissible tuples of a relation whose columns have kinds `ks r`. -/
-def Admissible (ks : String → List DType) (r : String) (t : Tuple) : Prop :=
-  t.map dataType = ks r ∧ ks r ≠ [] ∧ (ks r).all safeKind = true ∧ t.all jsonSafe = true ∧ TupleWF t
-
-theorem realCodec_ok (ks : String → List DType) : CodecOk realCodec (Admissible ks) where
-  wal := fun _ u h => C12_wal_line u h.2.2.2.1
-  batch := fun r us h => by
-    cases us with
-    | nil => rfl
-    | cons u us =>
-      have hu := h u (by simp)
-      exact C12_homogeneous (ks r) hu.2.1 hu.2.2.1 (u :: us) (fun v hv => (h v hv).1)
+theorem C12_wal_line (u : Update) (h : u.data.all jsonSafe = true) : walCodec u = some u := walCodec_safe u h
 
 /-- **C12 for homogeneous relations**: with the real codec, immediate durability, any buffer size and
     WAL limit, every history of effective requests over admissible tuples (with saves, compactions and
@@ -79,8 +65,6 @@ theorem C12_refuted : ¬ C12_statement := by
 def ksEx : String → List DType := fun _ => [.i64, .f64, .str, .vec 2]
 def tA : Tuple := [.i64 1, .f64 0x8000000000000000, .str [195, 169], .vec [0x3f800000, 0x80000000]]
 def tB : Tuple := [.i64 (-7), .f64 0x3ff8000000000000, .str [], .vec [0, 0x40000000]]
-
-instance (r : String) (t : Tuple) : Decidable (Admissible ksEx r t) := by unfold Admissible; infer_instance
 
 example : Effective realCodec (Admissible ksEx) { cfg := { buffer := 1 } }
     [.ins "m" [tA], .ins "m" [tB], .restart, .del "m" [tA], .compact, .restart] := by decide
